@@ -335,8 +335,9 @@ package proto
 //@ ensures {C06,C11} old(S_pos) <= S_pos && S_pos <= S_end
 //@ ensures {C06} (err == nil && result0 != nil) || (err != nil && result0 == nil)
 //@ ensures {C01} err == nil ==> fresh(result0) && result0.Type == BulkMessage && result0.array == nil
-//@ ensures {C01,C02} err == nil ==> atoiOK(lineStr(old(S_pos)))
-//@ ensures {C01,C02} err == nil && atoi(lineStr(old(S_pos))) < 0 ==> result0.bytes == nil && S_pos == afterLine(old(S_pos))
+// (C11: a value is returned only for a complete, numeric length line - a header cut at the end of the stream is not a null bulk)
+//@ ensures {C01,C02,C11} err == nil ==> atoiOK(lineStr(old(S_pos)))
+//@ ensures {C01,C02,C11} err == nil && atoi(lineStr(old(S_pos))) < 0 ==> result0.bytes == nil && S_pos == afterLine(old(S_pos))
 //@ ensures {C01,C02} err == nil && atoi(lineStr(old(S_pos))) >= 0 ==> result0.bytes != nil && len(result0.bytes) == atoi(lineStr(old(S_pos))) && S_pos == afterLine(old(S_pos)) + len(result0.bytes) + 2
 //@ ensures {C01,C02} err == nil && atoi(lineStr(old(S_pos))) >= 0 ==> forall i int :: 0 <= i && i < len(result0.bytes) ==> result0.bytes[i] == S_in[afterLine(old(S_pos)) + i]
 //@ ensures {C01,C02} err == nil && atoi(lineStr(old(S_pos))) >= 0 ==> S_in[S_pos - 2] == 13 && S_in[S_pos - 1] == 10
